@@ -47,6 +47,7 @@ def plan(tier, seed):
     cases.append({"kind": "prod"})
     cases.append({"kind": "abs", "seed": seed})
     cases.append({"kind": "names"})
+    cases.append({"kind": "long_names"})
     cases.append({"kind": "types"})
     # real models
     if tier == "thorough":
@@ -211,6 +212,43 @@ def _run_names(res):
                   given=g, got=repr(ys))
 
 
+LONG_NAMES_CHILD = r"""
+import sys
+sys.path.insert(0, %(repo)r)
+import aldy.lpinterface as lpi
+stem = "K_31319_ins" + "ACGT" * 52   # a variant name longer than the 200 characters names are cut to
+names = [stem + "_1_1.001_0", stem + "_1_1.002_0", stem + "_2_2.001_0", stem + "_1_1.001_0"]
+m = lpi.model("AldyLong", "any")
+vs = [m.addVar(vtype="B", name=n) for n in names]
+got = [m.varName(v) for v in vs]
+print("DISTINCT", len(set(got)) == len(got))
+m.addConstr(m.quicksum(vs) >= 1, name="C")
+m.addConstr(m.quicksum(vs) <= 1, name="C")
+m.setObjective(m.quicksum((i + 1) * v for i, v in enumerate(vs)))
+ys = [(round(y[1], 6), y[2]) for y in m.solutions(10.0)]
+print("YIELDS", len(ys), ys[0][0] if ys else None, len({y[1] for y in ys}))
+"""
+
+
+def _run_long_names(res):
+    """Names longer than the 200 characters they are cut to (a long insertion in an allele-copy variable) that
+    differ only behind that point: the model is legal and must give its optimum, one solution per variable.
+    Run in a child process: the solver library aborts the whole process on a duplicate name."""
+    import subprocess
+    import sys
+
+    p = subprocess.run([sys.executable, "-c", LONG_NAMES_CHILD % {"repo": util.REPO}], capture_output=True,
+                       text=True, timeout=300)
+    out = p.stdout
+    res.check("names_unique", "DISTINCT True" in out,
+              "variable names that differ only behind the 200th character come back identical",
+              exit_code=p.returncode, output=out[-300:], stderr=p.stderr[-300:])
+    res.check("names_identify", p.returncode == 0 and "YIELDS 4 1.0 4" in out,
+              "a legal model with long variable names does not give its optimum and one solution per variable "
+              "(the process may have been aborted by the solver library)",
+              exit_code=p.returncode, output=out[-300:], stderr=p.stderr[-300:])
+
+
 def _run_types(res):
     """Typed read-back and binary detection: only binaries (and integers bounded [0, 1]) read back as bool and
     are listed in solutions; continuous variables never, whatever their bounds."""
@@ -292,6 +330,8 @@ def run(case):
     elif kind == "abs":
         _run_abs(case, res)
         res.fp, res.nontrivial = "abs", True
+    elif kind == "long_names":
+        _run_long_names(res)
     elif kind == "names":
         _run_names(res)
         res.fp, res.nontrivial = "names", True
